@@ -264,6 +264,7 @@ func (o *Store) walk(t *Collection, withValue bool, cfn func(*node) (*nodeLoc, b
 	res *Item, err error) {
 	rnl := t.rootAddRef()
 	defer t.rootDecRef(rnl)
+	verifPoint("read.pinned")
 	n := rnl.root
 	nNode, err := n.read(o)
 	if err != nil || n.isEmpty() || nNode == nil {
@@ -293,6 +294,7 @@ func (o *Store) visitNodes(t *Collection, n *nodeLoc, target []byte,
 	withValue bool, visitor ItemVisitorEx, depth uint64,
 	choiceFunc func(int, *node) (bool, *nodeLoc, *nodeLoc)) (bool, error) {
 	saveMem := true
+	verifPoint("visit.node")
 	nNode, err := n.read(o)
 	if err != nil {
 		return false, err
